@@ -51,7 +51,7 @@ def wt(V, tv, path):
     return [x * y for x, y in zip(a, b)]
 
 
-def make_lm(V, tvs, maxlen):
+def make_lm(V, tvs, maxlen, after_eos=None, keep_idx=False):
     """-> (language model, initial state for a batch of len(tvs) elements)"""
     from pydrobert.torch.modules import ExtractableShallowFusionLanguageModel
 
@@ -65,7 +65,7 @@ def make_lm(V, tvs, maxlen):
                 for y in itertools.product(range(V), repeat=n):
                     tab[code_of(y, V)] = [float(w) for w in (wt(V, q, y) if q == 3 else base_w(V, q, y))]
             tables.append(tab)
-        return TableLM(V, tables, strict=True)
+        return TableLM(V, tables, strict=True, after_eos=after_eos, keep_idx=keep_idx)
 
     N = len(tvs)
     if all(tv >= 4 for tv in tvs):
@@ -148,9 +148,16 @@ def run_call(ctx, cases, keys, tag, batched=True):
 
     V, _, eos, fa, mi, width = keys[0]
     N = len(keys)
-    lm, init = make_lm(V, [k[1] for k in keys], mi)
+    # what the model predicts after a path's eos is its own business (here: eos never again, probability zero), and it
+    # may keep the step-index tensor it was handed: neither may show in the result.  (Rows that are no distribution at
+    # all -- all -inf, NaN -- are NOT in the universe: the search feeds the model arbitrary tokens for its unusable slots
+    # and -inf + NaN poisons them; a language model returns distributions.)
+    mode = ctx.rng.choice((None, "zero_eos")) if eos >= 0 else None
+    keep_idx = ctx.rng.random() < 0.4
+    lm, init = make_lm(V, [k[1] for k in keys], mi, after_eos=None if mode is None else (eos, mode), keep_idx=keep_idx)
     pad = ctx.rng.choice((-1, -5, 0))
-    call_case = dict(V=V, tvs=[k[1] for k in keys], eos=eos, finish_all=fa, max_iters=mi, width=width, batched=batched, pad_value=pad)
+    call_case = dict(V=V, tvs=[k[1] for k in keys], eos=eos, finish_all=fa, max_iters=mi, width=width, batched=batched, pad_value=pad,
+                     after_eos=mode, keep_idx=keep_idx)
     try:
         bs = BeamSearch(lm, width, None if eos < 0 else (eos if ctx.rng.random() < 0.7 else eos - V), fa, pad)
         if batched:
@@ -175,7 +182,9 @@ def run(ctx):
                 "finite-score paths form one of the spec's terminal beams + distinct / stops at first eos / reported score = chained score "
                 "/ best first / -inf last; non-trivial = max_iters >= 2 and some pruning or an eos; distinct by case key")
     ctx.assumptions += ["next-token weights are positive integers over D (no zero-probability tokens)",
-                        "the language model's scores depend on the whole path through threaded state (TableLM)"]
+                        "the language model's scores depend on the whole path through threaded state (TableLM); in half of the "
+                        "calls with an eos the model gives eos probability zero after a path's eos, in 40% it keeps the step-index "
+                        "tensor it was handed in its state"]
     cases = {}
     steps = {}
     for cfg in (("BeamSearch_quick.cfg" if ctx.quick else "BeamSearch_thorough.cfg"), "BeamSearch_ties.cfg", "BeamSearch_fused.cfg"):
@@ -305,7 +314,8 @@ def replay(ctx, case):
         print("single-step case; re-run the check to reproduce:", case["step"])
         return
     c = case["call"]
-    lm, init = make_lm(c["V"], c["tvs"], c["max_iters"])
+    lm, init = make_lm(c["V"], c["tvs"], c["max_iters"], after_eos=None if c.get("after_eos") is None else (c["eos"], c["after_eos"]),
+                       keep_idx=bool(c.get("keep_idx")))
     bs = BeamSearch(lm, c["width"], None if c["eos"] < 0 else c["eos"], c["finish_all"], c["pad_value"])
     N = len(c["tvs"])
     if c["batched"]:
